@@ -105,8 +105,45 @@ func Gen(o GenOpts) *rapid.Generator[Log] {
 			return e
 		})
 		l.Entries = rapid.SliceOfN(entry, o.MinEntries, o.MaxEntries).Draw(t, "entries")
+		// now and then: an item with very many metadata keys that is later updated with very many other keys - each map
+		// fits the format's 65535-entry limit, their union does not
+		// (rapid's integer generators favour small values and bounds: a rare event is taken from the low bits of a wide draw)
+		if rapid.Uint64().Draw(t, "manykeys")%1000 == 777 {
+			if len(l.Entries) > 10 {
+				l.Entries = l.Entries[:10] // such items make every step expensive: keep these logs short
+			}
+			id := rapid.IntRange(0, nIds-1).Draw(t, "mkid")
+			at := rapid.IntRange(0, len(l.Entries)).Draw(t, "mkat")
+			ins := Entry{Kind: KInsert, Item: Item{Id: id, Vec: vec.Draw(t, "mkv1"), Meta: gen.ManyKeysA}}
+			upd := Entry{Kind: rapid.SampledFrom([]int{KUpdate, KBatchUpdate}).Draw(t, "mkkind"), Item: Item{Id: id, Vec: vec.Draw(t, "mkv2"), Meta: gen.ManyKeysB}}
+			if upd.Kind == KBatchUpdate {
+				upd.Items = []Item{upd.Item}
+			}
+			gap := rapid.IntRange(0, 3).Draw(t, "mkgap")
+			var es []Entry
+			es = append(es, l.Entries[:at]...)
+			es = append(es, ins)
+			k := at + gap
+			if k > len(l.Entries) {
+				k = len(l.Entries)
+			}
+			es = append(es, l.Entries[at:k]...)
+			es = append(es, upd)
+			es = append(es, l.Entries[k:]...)
+			l.Entries = es
+		}
 		return l
 	})
+}
+
+// HasManyKeys reports whether the log contains the update whose merged metadata exceeds the format's entry limit.
+func HasManyKeys(l Log) bool {
+	for _, e := range l.Entries {
+		if e.Item.Meta == gen.ManyKeysB {
+			return true
+		}
+	}
+	return false
 }
 
 // NotifID is the notification id carried by entry i (unique per entry).
@@ -187,7 +224,12 @@ func updateModel(m idxsm.Model, it Item) error {
 	if len(m) == 1 {
 		lvl = 0
 	}
-	m[id] = &idxsm.Item{Vec: it.Vec, Meta: idxsm.MergeMeta(old.Meta, gen.Meta(it.Meta)), Level: lvl}
+	merged := idxsm.MergeMeta(old.Meta, gen.Meta(it.Meta))
+	if !gen.MetaFits(merged) {
+		// what the storage format cannot represent is refused; a refused update changes nothing
+		return index.MetadataTooLargeError
+	}
+	m[id] = &idxsm.Item{Vec: it.Vec, Meta: merged, Level: lvl}
 	return nil
 }
 
